@@ -217,6 +217,14 @@ impl<Child: Executor> HashAggregate<Child> {
             } else {
                 DataType::Null
             };
+            // COUNT(expr) counts the rows where expr is not NULL; only COUNT(*) counts every row.
+            let counts_expr = !matches!(agg_expr.arg, None | Some(BoundExpression::Star));
+            if counts_expr
+                && matches!(value, DataType::Null)
+                && matches!(bucket.accumulators[i], Accumulator::Count { .. })
+            {
+                continue;
+            }
             bucket.accumulators[i].accumulate(&value)?;
         }
 
